@@ -56,6 +56,15 @@ type Case struct {
 	TilePlural bool        `json:"tile_plural,omitempty"` // Layers.ProjectToTile on the whole set (else Layer.ProjectToTile on each)
 	ViaMVT     bool        `json:"via_mvt,omitempty"`     // the set goes through mvt.Marshal / mvt.Unmarshal first
 
+	// kind "history" (round L, class L3): Layers = initial set, Ops = calls and caller-side mutations on the reused values
+	Ops []Op `json:"ops,omitempty"`
+	// kind "large" (round L, class L1): a structured shape of size N (see roundl_test.go)
+	Shape string `json:"shape,omitempty"`
+	N     int    `json:"n,omitempty"`
+	Pos   string `json:"pos,omitempty"`
+	// Method: the projection is passed as a bound method value instead of a closure (class L2)
+	Method bool `json:"method,omitempty"`
+
 	// noise calls (class D): Pre before the first judgement, Mid between the two legs of a
 	// round trip and between two observations of the checked calls
 	Pre []Noise `json:"pre,omitempty"`
@@ -427,9 +436,14 @@ func checkGeometry(c Case) error {
 	want := mapGeom(c.G.V, pf.f, &wantIn)
 
 	var calls []orb.Point
-	logged := func(p orb.Point) orb.Point {
+	var logged orb.Projection = func(p orb.Point) orb.Point {
 		calls = append(calls, p)
 		return pf.f(p)
+	}
+	if c.Method {
+		// the same logger as a bound method value of a pointer receiver
+		lg := &callLogger{f: pf.f, calls: &calls}
+		logged = lg.apply
 	}
 	arg := gen.DeepCopy(c.G.V)
 	var got orb.Geometry
@@ -504,6 +518,10 @@ func checkCore(c Case) error {
 	switch c.Kind {
 	case "layers":
 		return checkLayers(c)
+	case "history":
+		return checkHistory(c)
+	case "large":
+		return checkLarge(c)
 	case "wgs":
 		return checkWGS(c.P.Pt())
 	case "merc":
@@ -775,11 +793,20 @@ func TestPropGeometry(t *testing.T) {
 
 // drawGeometry draws one case of TestPropGeometry and reports whether it is non-trivial.
 func drawGeometry(rt *rapid.T) (Case, bool) {
+	if rapid.IntRange(0, 399).Draw(rt, "large") == 0 {
+		// rare large class: a rung of the size ladder (<= 6145) with a structured shape
+		k := rapid.IntRange(0, 2).Draw(rt, "lk")
+		c := Case{Kind: "large", Shape: rapid.SampledFrom(largeShapes).Draw(rt, "shape"), N: rapid.SampledFrom(ladder(6145)).Draw(rt, "n"),
+			Pos: rapid.SampledFrom([]string{"first", "middle", "last"}).Draw(rt, "pos"), Tile: []T{enumTiles[4], enumTiles[8], enumTiles[0]}[k], Extent: []uint32{4096, 1000, 256}[k]}
+		stats.Class("geometry:large (size ladder rung)")
+		return c, true
+	}
 	{
 		c := Case{Kind: "geometry"}
 		pf := projs[rapid.IntRange(0, len(projs)-1).Draw(rt, "proj")]
 		c.Proj = pf.name
 		c.Typed = rapid.IntRange(0, 3).Draw(rt, "typed") == 0
+		c.Method = rapid.IntRange(0, 2).Draw(rt, "method") == 0
 		coord := gen.Mix(gen.SmallInt(8), gen.Half(8), rapid.Float64Range(-200, 200), rapid.Float64Range(-1e6, 1e6), gen.SmallInt(1000))
 		if pf.geo {
 			coord = gen.Mix(gen.SmallInt(80), gen.Half(80), rapid.Float64Range(-80, 80))
